@@ -5,9 +5,9 @@ package dsim
 import (
 	"fmt"
 	"sort"
-	"sync"
 	"strconv"
 	"strings"
+	"sync"
 	"testing"
 	"time"
 )
